@@ -17,11 +17,16 @@ def make_filter(desc):
     raise KeyError(kind)
 
 
+def toc_plain(items):
+    """the heading's plain text: as dochtml.plain, but raw HTML contributes nothing"""
+    return ''.join('' if it.kind == 'html' else dochtml.plain([it]) for it in items)
+
+
 def model_headings(doc):
     out = []
     for path, kind, node in dochtml.flat_blocks(doc):
         if kind in ('atx', 'setext'):
-            out.append((node.level, dochtml.plain(node.inl)))
+            out.append((node.level, toc_plain(node.inl)))
     return out
 
 
@@ -183,7 +188,7 @@ class C19(Prop):
         'cases without a qualifying heading, or whose qualifying headings do not themselves form an outline (first one shallowest, never '
         'deepening by more than one), are skipped and counted: the API has no representable result for them',
         'titles are words, punctuation, HTML-significant characters, character references, backslash escapes and code spans; images, raw HTML and '
-        'line breaks in titles, and Unicode spaces at a title\'s edge (the block parser strips them like ASCII spaces; DESIGN.md section 9), are not generated',
+        'line breaks in titles, raw HTML at a title\'s edge, and Unicode spaces at a title\'s edge (the block parser strips them like ASCII spaces; DESIGN.md section 9), are not generated',
     )
 
     def parts(self):
